@@ -55,6 +55,28 @@ theorem next_frames_shape (s : St α) (k : Nat) :
        { beginFrames s with q := (beginFrames s).q.drop k }) :=
   iterN_spec k (beginFrames s)
 
+/-- *"in batches"*, the batch advanced with `Iterator::nth` (what `skip` / `step_by` use):
+    `next_frames().nth(k)` — `k+1` iterator steps of which the client sees the last — hands out the
+    frame `k` places into the buffer (after the possible refill) if there is one and `None` otherwise,
+    and consumes exactly the frames up to and including it: nothing further is lost or duplicated
+    (the state is the one `next_frames_shape` gives for `k+1` steps, so `interleaving_transparent`
+    applies to it as to any other operation) -/
+theorem nth_is_last_of_frames (s : St α) (k : Nat) :
+    (nthView (step s (.frames (k + 1))).1).out = [(beginFrames s).q[k]?] ∧
+    (step s (.frames (k + 1))).2 = { beginFrames s with q := (beginFrames s).q.drop (k + 1) } := by
+  have h := next_frames_shape s (k + 1)
+  simp only [step, nthView, look, h, true_and, and_true]
+  congr 1
+  generalize (beginFrames s).q = q
+  by_cases hk : k < q.length
+  · have hr : k + 1 - q.length = 0 := by omega
+    rw [hr, List.replicate_zero, List.append_nil, List.getLast?_map, List.getLast?_take]
+    simp [hk, List.getElem?_eq_getElem hk]
+  · have hk' : q.length ≤ k := Nat.le_of_not_lt hk
+    obtain ⟨m, hm⟩ : ∃ m, k + 1 - q.length = m + 1 := ⟨k - q.length, by omega⟩
+    rw [hm, List.replicate_succ', ← List.append_assoc, List.getLast?_concat]
+    simp [List.getElem?_eq_none hk']
+
 /-- `next_frames().collect()` yields the whole buffer and leaves it empty -/
 theorem next_frames_collect (s : St α) :
     exec s .drain = ((beginFrames s).q.map some, { beginFrames s with q := [] }) := by
